@@ -44,7 +44,7 @@ for name in sorted(expect):
     out.append(f'| {name} | {first_line_of_patch(p)} | {verified(name, []) or "no alarm in any of the 19 checks (earlier run)"} |')
 out.append('')
 out.append('### 8.3 Independently seeded changes (`seeded/S*/`)\n')
-out.append('Written by fresh sub-agents that were given only one property record and a scratch worktree of `/repo` (nothing from `/verif`), asked for a change that breaks the property, still compiles, keeps the pinned suite green and needs something specific to manifest, plus a demonstration that fails with the change and passes without it. Each was confirmed here before being kept (`tools/seed_eval.py`: demonstration passes on the unchanged tree, fails with the change; pinned suite 44/44 with the change); `meta.json` records what was run. Round 1 asked for one change per property (S01–S19), round 2 for two alternative changes at different sites (S20–S57), round 3 (S58–S69) for a change that small regular inputs cannot expose (every graph with <= 5 functions and every chain, star, fan, antichain and complete layered graph must behave as before; the agents brute-forced this). After round 1 the checks missed S03 for C01 and S08 for C03 (found by other checks), S18 for C17; after round 2 none of the 38 was missed by the check of its own property except those needing the builder-call-order dimension (S23, S35) and the two-generation fan (S30), which had been added in between; after round 3 nine of the twelve were missed at first (S58, S59, S61-S66, S69) — the antichain-targeted schedules, irregular and large families, many-type and sparse-conflict families and the 6-node declaration space of §3.4/§3.5 were built in response, and all 69 are now reported by the quick tier of the check of their own property.\n')
+out.append(open(f'{V}/tools/seeding_history.md').read())
 out.append('| seeded change | property | needs to manifest | reported by | last self-test |')
 out.append('|---|---|---|---|---|')
 for d in sorted(glob.glob(f'{V}/seeded/S*')):
@@ -53,7 +53,8 @@ for d in sorted(glob.glob(f'{V}/seeded/S*')):
     det = m.get('detected_by', [])
     own = m['property']
     det = [own] + [c for c in det if c != own] if own in det else det
-    out.append(f'| {name} | {own} | {m.get("needs_to_manifest", "")} | {", ".join(det)} | {verified(name, det)} |')
+    shown = ", ".join(det) if det else "**none (known miss)**"
+    out.append(f'| {name} | {own} | {m.get("needs_to_manifest", "")} | {shown} | {verified(name, det) if det else "known miss"} |')
 out.append('')
 tables = '\n'.join(out)
 
